@@ -52,7 +52,7 @@ Lemma md_empty_app : forall a b, md_empty (a ++ b) = md_empty a && md_empty b.
 Proof. intros [|x a] b; reflexivity. Qed.
 
 Definition inv (s : wst) (g : gst) (half sent : bool) : Prop :=
-  w_closed s = false /\ w_cancelled s = false /\ w_half s = half /\ g_half g = half /\
+  w_closed s = false /\ w_ctx s = CtxLive /\ w_half s = half /\ g_half g = half /\
   w_sent s = sent /\ g_sent g = sent /\ w_trailer s = g_trl g /\
   w_header s = (if sent then g_chdr g else g_hdr g) /\ g_resp g = None /\ g_over g = false.
 
@@ -123,7 +123,7 @@ Proof.
     + (* Cancel *)
       cbn in Hwf. split_and. destruct rest; try discriminate.
       cbn in Hk1. destruct gt; try discriminate.
-      destruct sh, sent, half; cbn; reflexivity.
+      destruct dl, sh, sent, half; cbn; reflexivity.
 Qed.
 
 Lemma known_none : forall sc, precancel sc = false -> no_known sc = true ->
@@ -137,10 +137,9 @@ Qed.
 Theorem wrapper_equals_grpc : forall sc,
   wf sc = true -> no_known sc = true -> wrap_run fx_now sc = grpc_run sc.
 Proof.
-  intros [sh rq pc l] Hwf Hnk. unfold wrap_run, wrap_exec, grpc_run, wf in *. cbn [precancel shp steps req] in *.
-  destruct pc.
-  - destruct sh; reflexivity.
-  - destruct (known_none (mkScn sh rq false l) eq_refl Hnk) as [Hk1 Hk2]. cbn [steps shp] in Hk1, Hk2.
+  intros [sh rq om pc l] Hwf Hnk. unfold wrap_run, wrap_exec, grpc_run, wf, precancel in *. cbn [pre shp steps req omd] in *.
+  destruct pc; [ | destruct l; [destruct sh; reflexivity | discriminate] .. ].
+  - destruct (known_none (mkScn sh rq om CtxLive l) eq_refl Hnk) as [Hk1 Hk2]. cbn [steps shp] in Hk1, Hk2.
     assert (Hs : forall s0, inv s0 (g_init (negb (cs sh))) (negb (cs sh)) false ->
                  snd (w_steps fx_now sh (mkWR s0 false false) l) = g_steps sh (g_init (negb (cs sh))) l).
     { intros s0 Hi. apply (steps_equal sh l s0 _ _ _ _ Hi Hwf); [exact Hk1 | exact Hk2]. }
@@ -156,7 +155,7 @@ Qed.
 Definition not_stuck (o : cobs) : bool := match o with CEnd OStuck => false | _ => true end.
 
 Definition winv (s : wst) (half sent : bool) : Prop :=
-  w_closed s = false /\ w_cancelled s = false /\ w_half s = half /\ w_sent s = sent.
+  w_closed s = false /\ w_ctx s = CtxLive /\ w_half s = half /\ w_sent s = sent.
 
 Definition w_fin fx sh r l := fst (w_steps fx sh r l).
 
@@ -198,16 +197,15 @@ Proof.
       destruct sh, r, sent; cbn; auto;
         repeat match goal with |- context [if ?b then _ else _] => destruct b end; auto.
     + cbn in Hwf. split_and. destruct rest; try discriminate.
-      destruct sh, sent, half; cbn; auto.
+      destruct dl, sh, sent, half; cbn; auto.
 Qed.
 
 Theorem no_goroutine_left : forall sc,
   wf sc = true ->
   handler_finished (fst (wrap_exec fx_now sc)) = true /\ never_blocked (wrap_run fx_now sc) = true.
 Proof.
-  intros [sh rq pc l] Hwf. unfold wrap_run, wrap_exec, wf, never_blocked in *. cbn [precancel shp steps req] in *.
-  destruct pc.
-  - destruct sh; split; reflexivity.
+  intros [sh rq om pc l] Hwf. unfold wrap_run, wrap_exec, wf, never_blocked, precancel in *. cbn [pre shp steps req omd] in *.
+  destruct pc; [ | destruct sh; split; reflexivity .. ].
   - assert (Hs : forall s0, winv s0 (negb (cs sh)) false ->
        w_closed (wr_s (w_fin fx_now sh (mkWR s0 false false) l)) = true /\
        forallb not_stuck (fst (w_obs fx_now sh (mkWR s0 false false) l)) = true).
@@ -287,7 +285,7 @@ Proof.
 Qed.
 
 Lemma sobs_eqb_refl : forall o, sobs_eqb o o = true.
-Proof. destruct o; cbn; auto using Z.eqb_refl, Bool.eqb_reflx. Qed.
+Proof. destruct o; cbn; auto using Z.eqb_refl, Bool.eqb_reflx, md_eqb_refl. Qed.
 
 Lemma transcript_eqb_refl : forall t, transcript_eqb t t = true.
 Proof.
@@ -298,7 +296,8 @@ Qed.
 Lemma same_view_refl : forall t, same_view t t = true.
 Proof.
   intros [c s]. unfold same_view. cbn.
-  rewrite (list_eqb_refl _ _ cobs_eqb_refl), (list_eqb_refl _ _ Z.eqb_refl). reflexivity.
+  rewrite (list_eqb_refl _ _ cobs_eqb_refl), (list_eqb_refl _ _ Z.eqb_refl), (list_eqb_refl _ _ md_eqb_refl).
+  reflexivity.
 Qed.
 
 Theorem judge_sound : forall sc,
@@ -310,3 +309,140 @@ Proof.
   rewrite <- (wrapper_equals_grpc sc Hwf Hnk), same_view_refl.
   destruct (no_goroutine_left sc Hwf) as [_ Hb]. rewrite Hb. reflexivity.
 Qed.
+
+(* ---- the judge is complete: an observation that agrees with the models satisfies the predicate ---- *)
+
+Lemma list_eqb_eq : forall A (e : A -> A -> bool), (forall x y, e x y = true -> x = y) ->
+  forall a b, list_eqb e a b = true -> a = b.
+Proof.
+  intros A e He. induction a as [|x a IH]; intros [|y b] H; cbn in H; try discriminate; [reflexivity|].
+  apply andb_prop in H. destruct H as [H1 H2]. rewrite (He _ _ H1), (IH _ H2). reflexivity.
+Qed.
+
+Lemma md_eqb_eq : forall a b, md_eqb a b = true -> a = b.
+Proof.
+  apply list_eqb_eq. intros [a b] [c d] H. cbn in H. apply andb_prop in H. destruct H as [H1 H2].
+  apply Z.eqb_eq in H1, H2. subst. reflexivity.
+Qed.
+
+Lemma outcome_eqb_eq : forall a b, outcome_eqb a b = true -> a = b.
+Proof.
+  intros [] [] H; cbn in H; try discriminate; try reflexivity.
+  apply andb_prop in H. destruct H as [H1 H2]. apply Z.eqb_eq in H1, H2. subst. reflexivity.
+Qed.
+
+Lemma cobs_eqb_eq : forall a b, cobs_eqb a b = true -> a = b.
+Proof.
+  intros [] [] H; cbn in H; try discriminate; try reflexivity.
+  - apply Bool.eqb_prop in H. subst. reflexivity.
+  - apply Z.eqb_eq in H. subst. reflexivity.
+  - apply outcome_eqb_eq in H. subst. reflexivity.
+  - apply md_eqb_eq in H. subst. reflexivity.
+  - apply md_eqb_eq in H. subst. reflexivity.
+Qed.
+
+Lemma sobs_eqb_eq : forall a b, sobs_eqb a b = true -> a = b.
+Proof.
+  intros [] [] H; cbn in H; try discriminate; try reflexivity;
+    try (apply Z.eqb_eq in H; subst; reflexivity);
+    try (apply Bool.eqb_prop in H; subst; reflexivity).
+  apply md_eqb_eq in H. subst. reflexivity.
+Qed.
+
+Lemma transcript_eqb_eq : forall a b, transcript_eqb a b = true -> a = b.
+Proof.
+  intros [c s] [c' s'] H. unfold transcript_eqb in H. cbn in H. apply andb_prop in H. destruct H as [H1 H2].
+  apply (list_eqb_eq _ _ cobs_eqb_eq) in H1. apply (list_eqb_eq _ _ sobs_eqb_eq) in H2. subst. reflexivity.
+Qed.
+
+Lemma shape_none_lookup : forall m, shape_of_method m = None -> lookup m method_table = None.
+Proof.
+  intros m H. unfold shape_of_method in H. cbn -[Z.eqb].
+  rewrite (Z.eqb_sym 0 m), (Z.eqb_sym 1 m), (Z.eqb_sym 2 m), (Z.eqb_sym 3 m).
+  destruct (m =? 0); [discriminate|]. destruct (m =? 1); [discriminate|].
+  destruct (m =? 2); [discriminate|]. destruct (m =? 3); [discriminate|]. reflexivity.
+Qed.
+
+Lemma unwrap_chain : forall ids leaf, unwrap_fully (mk_chain ids leaf) = Plain leaf.
+Proof. induction ids as [|i r IH]; intro leaf; cbn; [reflexivity | apply IH]. Qed.
+
+Lemma unwrap_is_plain : forall o, exists i, unwrap_fully o = Plain i.
+Proof. induction o as [i | i o IH]; cbn; [exists i; reflexivity | exact IH]. Qed.
+
+Lemma unwrap_idempotent : forall o, unwrap_fully (unwrap_fully o) = unwrap_fully o.
+Proof. intro o. destruct (unwrap_is_plain o) as [i ->]. reflexivity. Qed.
+
+(* every observation that agrees with the two models and lies in the fragment, outside the recorded
+   classes, satisfies the property predicate: verdict 2 cannot come from the predicate being stricter
+   than the models *)
+Theorem judge_complete : forall c,
+  agrees c = true -> C13_guard c = true -> C13_known c = None -> C13_ok c = true.
+Proof.
+  intros [sc tw tg | m via cw cg | m a b cw | k rw rg | ids leaf got] Ha Hg Hk; cbn in *.
+  - apply andb_prop in Ha. destruct Ha as [H1 H2].
+    apply transcript_eqb_eq in H1, H2. subst.
+    assert (Hnk : no_known sc = true) by (unfold no_known; rewrite Hk; reflexivity).
+    rewrite <- (wrapper_equals_grpc sc Hg Hnk), same_view_refl.
+    destruct (no_goroutine_left sc Hg) as [_ Hb]. rewrite Hb. reflexivity.
+  - apply andb_prop in Ha. destruct Ha as [H1 H2].
+    destruct (shape_of_method m) eqn:Hs; [discriminate|].
+    destruct (unknown_method_unimplemented m (shape_none_lookup m Hs)) as [Hi Hn].
+    rewrite Hi, (Hn false false) in H1. unfold grpc_unknown_method_code in H2.
+    apply Z.eqb_eq in H2. subst cg. destruct via; cbn in H1; rewrite H1; reflexivity.
+  - apply Z.eqb_eq in Ha. subst cw. unfold shape_of_method, newstream_lookup. cbn -[Z.eqb].
+    rewrite (Z.eqb_sym 0 m), (Z.eqb_sym 1 m), (Z.eqb_sym 2 m), (Z.eqb_sym 3 m).
+    destruct (m =? 0); [destruct a, b; reflexivity|].
+    destruct (m =? 1); [destruct a, b; reflexivity|].
+    destruct (m =? 2); [destruct a, b; reflexivity|].
+    destruct (m =? 3); [destruct a, b; reflexivity|]. reflexivity.
+  - discriminate.
+  - apply Z.eqb_eq in Ha. subst got. rewrite unwrap_chain. cbn. apply Z.eqb_refl.
+Qed.
+
+Corollary judge_zero : forall c,
+  agrees c = true -> C13_guard c = true -> C13_known c = None -> judge c = 0.
+Proof.
+  intros c Ha Hg Hk. unfold judge. rewrite Ha, Hg, (judge_complete c Ha Hg Hk). reflexivity.
+Qed.
+
+(* ---- a message is copied before SendMsg returns ---- *)
+
+Lemma hread_merge_same : forall d s h, hread d (merge d s h) = hread s h.
+Proof. intros. unfold merge, hwrite. cbn. rewrite Z.eqb_refl. reflexivity. Qed.
+
+Lemma hread_merge_other : forall a d s h, a <> d -> hread a (merge d s h) = hread a h.
+Proof. intros a d s h Hn. unfold merge, hwrite. cbn. destruct (Z.eqb_spec d a); [congruence | reflexivity]. Qed.
+
+(* whatever the sender (or anybody else) writes between the moment SendMsg returns and the moment the
+   receiver copies, to any object but the private snapshot, the receiver ends up with the content the
+   message had when SendMsg was called *)
+Theorem send_snapshot_isolated : forall h src tmp dst between,
+  (forall p, In p between -> fst p <> tmp) ->
+  hread dst (send_recv true src tmp dst between h) = hread src h.
+Proof.
+  intros h src tmp dst between Hb. unfold send_recv.
+  rewrite hread_merge_same, hread_apply_writes by exact Hb. apply hread_merge_same.
+Qed.
+
+(* ... and the sender's object is left alone by the transfer itself *)
+Theorem send_snapshot_sender_untouched : forall h src tmp dst,
+  src <> tmp -> src <> dst -> hread src (send_recv true src tmp dst [] h) = hread src h.
+Proof.
+  intros h src tmp dst H1 H2. unfold send_recv, apply_writes. cbn [fold_left].
+  rewrite hread_merge_other by exact H2. apply hread_merge_other. exact H1.
+Qed.
+
+(* the code before 80ea756: a handler that reuses its message right after Send changes what the client gets *)
+Lemma send_no_snapshot_refuted : exists h src tmp dst between,
+  (forall p, In p between -> fst p <> tmp /\ fst p <> dst) /\
+  hread dst (send_recv false src tmp dst between h) <> hread src h.
+Proof.
+  exists [(1, 5)], 1, 3, 2, [(1, 99)]. split.
+  - intros p [<-|[]]. cbn. split; discriminate.
+  - cbn. discriminate.
+Qed.
+
+(* the handler's incoming metadata is a copy of the client's outgoing map *)
+Theorem incoming_md_cloned : forall a h ws,
+  mget (clone_md a h) (apply_mwrites ws h) = mread a h.
+Proof. reflexivity. Qed.
